@@ -728,13 +728,28 @@ def ResultRow(vals, names):
     return _SARow(md, md._processors, md._key_to_index, tuple(vals))
 
 
-def materialize(v):
+def materialize(v, name=None):
     n, val = v
     if fork(n):
         return None
     if isinstance(val, z3.BoolRef):
         return wrap(val)
+    if isinstance(val, SymNum) and name is not None and (
+            name == 'id' or name.endswith('_id')) and _finite_valued(val.z):
+        # an identifier that is a choice among constants (the result of an
+        # UPDATE under a symbolic condition) indexes dicts in the code under
+        # test: split into its cases
+        return symex.concretize(val)
     return val
+
+
+def _finite_valued(t, depth=0):
+    if z3.is_int_value(t):
+        return True
+    if depth < 8 and z3.is_app(t) and t.decl().kind() == z3.Z3_OP_ITE:
+        return _finite_valued(t.arg(1), depth + 1) and \
+            _finite_valued(t.arg(2), depth + 1)
+    return False
 
 
 class Result:
@@ -751,8 +766,9 @@ class Result:
             out = []
             for c, vals in self._rows:
                 if fork(c):
-                    out.append(ResultRow([materialize(v) for v in vals],
-                                         self._names))
+                    out.append(ResultRow(
+                        [materialize(v, n) for v, n in zip(vals, self._names)],
+                        self._names))
             self._mat = out
         return self._mat
 
@@ -768,8 +784,9 @@ class Result:
             # only look as far as the first present row
             for c, vals in self._rows:
                 if fork(c):
-                    return ResultRow([materialize(v) for v in vals],
-                                     self._names)
+                    return ResultRow(
+                        [materialize(v, n) for v, n in zip(vals, self._names)],
+                        self._names)
             return None
         return self._mat[0] if self._mat else None
     first = fetchone
